@@ -3,6 +3,7 @@ package rules
 import (
 	"fmt"
 	"go/constant"
+	"go/token"
 	"strings"
 
 	"golang.org/x/tools/go/ssa"
@@ -19,6 +20,7 @@ func checkC17(r *core.Run) {
 	r.Explanation = "C17 (structural clauses only): every write of Binding, Update and UpdatePaymentAddress is dominated on all paths by the tests the statement names (account unbound, no existing auth, proof verified, fresh, submitter bound once the DID exists, document id recomputed; all accounts handled and the payment account never unbound; sid payment address only for an account bound to that DID, key payment address only once, only by the address itself and only if the address has no key DID yet); the binding tables are written only from those handlers, genesis and the v2 migration; the bytes a binding proof signs must depend on the DID and timestamp it claims. Decides guard dominance, capability and data dependence; whole-table agreement is not decided."
 	r.Rule("G-bind / G-upd / G-pay: guard rows of DESIGN A.2 evaluated path-sensitively; for-all requirements are recognised as range loops whose every iteration passes the inner test")
 	r.Rule("T-paykey: in UpdatePaymentAddress the PaymentAddress/Kid records are written under msg.Did (or the bound DID tested equal to it) and the parsed account address, i.e. the same keys the guards looked up")
+	r.Rule("G-proof-addr: every success return of verifyBindingProof lies behind the equal side of an exact string comparison (==) between a value and the address part of the account id being bound (the registry is keyed by the raw account-id string, so the proof must be checked for exactly that spelling)")
 	r.Rule("T-payload: in verifyBindingProof the message passed to signature verification/recovery must data-depend on proof.Did and proof.Timestamp")
 	r.Rule("CAP-did: the nine binding/payment prefixes of module did are written only from {Binding, Update, UpdatePaymentAddress, did genesis, did v2 migration}")
 	r.Rule("T-anchored: identifier-validation patterns (the CAIP-10 account id pattern) are constants anchored with ^ and $")
@@ -84,6 +86,33 @@ func checkC17(r *core.Run) {
 	evalStoreVal(r, "T-paykey", upa, "did/types.Kid.Kid", []string{msg + ".Did"}, "the address->key-DID link names the DID string the guards read")
 	evalStoreVal(r, "T-paykey", upa, "did/types.PaymentAddress.Address", []string{caip + ".Address"}, "the payment address is the address of the parsed account id that the guards compared")
 	evalStoreVal(r, "T-paykey", upa, "did/types.Kid.Address", []string{caip + ".Address"}, "the linked address is the address of the parsed account id that the guards compared")
+
+	// ---- G-proof-addr: the key under which the account is registered is the key the proof was checked for
+	if f := r.Func("G-proof-addr", "did/keeper.Keeper.verifyBindingProof"); f != nil {
+		ck := &guard.Checker{P: r.P, Fn: f, Res: r.Resolver(f)}
+		succ := successBlocks(r, f)
+		if len(succ) == 0 {
+			r.Undecide("G-proof-addr", core.Key("G-proof-addr", r.KeyName(f), "no success return"), r.P.FuncPos(f), "verifyBindingProof has no recognisable success return")
+		}
+		for b := range succ {
+			key := core.Key("G-proof-addr", r.KeyName(f), fmt.Sprintf("success#%d", succIndex(f, b)), "address-equals-account-id")
+			atoms := []guard.Atom{guard.Eq("*", "#2.Address")}
+			ok, w := ck.MustPass(b, atoms)
+			if !ok {
+				// the branch was moved into a helper:  return verifyXxxProof(..., caip10, ...)  succeeds exactly when the helper does
+				if ret, isRet := b.Instrs[len(b.Instrs)-1].(*ssa.Return); isRet && len(ret.Results) == 1 {
+					if cl, isCall := ret.Results[0].(*ssa.Call); isCall && ck.NilResultImplies(cl, atoms) {
+						ok = true
+					}
+				}
+			}
+			if ok {
+				r.Discharge("G-proof-addr", key, r.P.Pos(lastInstrPos(b)), "the proof is accepted only on the equal side of an exact comparison with the address part of the account id")
+			} else {
+				r.Violate("G-proof-addr", key, r.P.Pos(lastInstrPos(b)), "verifyBindingProof accepts a proof on a path that does not pass an exact string equality with the address part of the account id (caip10.Address): the registry tables are keyed by the raw account-id string, so a looser comparison (case-insensitive, prefix, normalised copy) lets one key be bound under several spellings, i.e. to several DIDs", w...)
+			}
+		}
+	}
 
 	// ---- T-payload
 	if f := r.Func("T-payload", "did/keeper.Keeper.verifyBindingProof"); f != nil {
@@ -225,4 +254,40 @@ func rulePayGuards(r *core.Run) {
 	}
 	evalGuardBranch(r, "G-pay", "did/keeper.msgServer.UpdatePaymentAddress", guard.Eq(method, "\"sid\""), "sid", sidClauses)
 	evalGuardBranch(r, "G-pay", "did/keeper.msgServer.UpdatePaymentAddress", guard.Eq(method, "\"key\""), "key", keyClauses)
+}
+
+
+// succIndex: ordinal of block b among the function's blocks (stable key for a return site).
+func succIndex(f *ssa.Function, b *ssa.BasicBlock) int {
+	n := 0
+	for _, x := range f.Blocks {
+		if x == b {
+			return n
+		}
+		if _, ok := x.Instrs[len(x.Instrs)-1].(*ssa.Return); ok {
+			n++
+		}
+	}
+	return -1
+}
+
+func lastInstrPos(b *ssa.BasicBlock) token.Pos {
+	for i := len(b.Instrs) - 1; i >= 0; i-- {
+		if p := b.Instrs[i].Pos(); p.IsValid() {
+			return p
+		}
+	}
+	return b.Parent().Pos()
+}
+
+
+// ruleBoundSubmitter (G-bound, C10): the clause of G-bind that decides who may extend the set of accounts acting for
+// an existing DID, evaluated for every write of MsgBinding.
+func ruleBoundSubmitter(r *core.Run, id string) {
+	proof := "did/types.MsgBinding.GetProof(" + msg + ")"
+	k := "did/keeper.Keeper."
+	versions := k + "GetSidDocumentVersion(" + msg + ".RootDocId)#1"
+	evalGuard(r, id, "did/keeper.msgServer.Binding", effSel{AllWrites: true}, []clause{
+		cl("existing-did-requires-bound-submitter", guard.False(versions), guard.Eq(k+"CreatorIsBoundToDid("+msg+".Creator,"+proof+".Did)", "nil")),
+	}, 6)
 }
